@@ -14,6 +14,13 @@ pub uninterp spec fn is_ident_rule(n: &Node) -> bool;
 #[verifier::external_body] pub fn ident_self() -> (r: Ident) { unimplemented!() }                         // Ident::new("self", Some(ClassSelf(None)), false)
 #[verifier::external_body] pub fn add_dependency(n: &Node, i: &Ident) { unimplemented!() }
 #[verifier::external_body] pub fn link_force_no_inherit(i: &mut Ident, n: &Node, t: TypeLayout) -> (r: Result<(), VErr>) { unimplemented!() }
+// C02 / C07 (D94): the pre-walk of a class (add_to_scope_dependencies == false) only wants the parameter TYPES; registering the parameters there puts them
+// into the CLASS scope, where every other method then resolves them at compile time (`fn g(self) -> int { return q }`, q a parameter of the constructor)
+// and fails at run time with `q is not in scope`.  Registering is only allowed when the caller asked for it.
+pub uninterp spec fn may_register(n: &Node) -> bool;
+#[verifier::external_body] pub fn add_dependency_g(n: &Node, i: &Ident) requires may_register(n) { unimplemented!() }
+#[verifier::external_body] pub fn link_force_no_inherit_g(i: &mut Ident, n: &Node, t: TypeLayout) -> (r: Result<(), VErr>) requires may_register(n) { unimplemented!() }
+impl Ident { #[verifier::external_body] pub fn set_type_no_link(&mut self, t: TypeLayout) { unimplemented!() } }
 pub uninterp spec fn in_class_method(n: &Node) -> bool;
 #[verifier::external_body] pub fn is_function_a_class_method(n: &Node) -> (r: bool) ensures r == in_class_method(n) { unimplemented!() }
 pub uninterp spec fn is_self_text(n: &Node) -> bool;                                                      // ident_node.as_str() == "self"
@@ -57,10 +64,13 @@ def build(repo):
         Rule("R6", "ty . is_class_self ( )", "is_class_self ( & ty )", why="type query abstract"),
         Rule("R3", "return Err ( new_err ( $$a ) ) ;", "return Err ( VErr ) ;", why="diagnostic construction dropped"),
         Rule("R6", "ident . link_force_no_inherit ( input . user_data ( ) , ty ) ?", "link_force_no_inherit ( & mut ident , & input , ty ) ?", why="abstract callee"),
+        Rule("R6", "ident . link_force_no_inherit ( input . user_data ( ) , ty ) ? ;", "link_force_no_inherit ( & mut ident , & input , ty ) ? ;", why="abstract callee"),
         Rule("R12", "let mut result : Vec < Ident > = Vec :: new ( ) ;", "let mut result : Vec < Ident > = Vec :: new ( ) ;"),
     ]
     b = translate(f["body"], rules, log, "Parser::function_parameters")
     check_closed(b, "Parser::function_parameters")
+    bg = [{"add_dependency": "add_dependency_g", "link_force_no_inherit": "link_force_no_inherit_g"}.get(t, t) for t in b]
+    bg = [t.replace("invariant true ", "invariant add_to_scope_dependencies ==> may_register(&input) ") if t.startswith(G("")) else t for t in bg]
     gen = header(log, f"{FILE}: Parser::function_parameters") + prelude("parser.rs") + SPEC + f"""
 //@ OBL C16.params.self-required
 pub fn function_parameters(input: Node, add_to_scope_dependencies: bool, require_self_param: bool, allow_self_type: bool) -> (r: Result<FunctionParameters, VErr>)
@@ -71,12 +81,21 @@ pub fn function_parameters(input: Node, add_to_scope_dependencies: bool, require
 {{
 {render(b, 1)}
 }}
+
+//@ OBL C02.params.registers-only-on-request
+// the same text: nothing is registered in the current scope unless the caller asked for it
+pub fn function_parameters_scope(input: Node, add_to_scope_dependencies: bool, require_self_param: bool, allow_self_type: bool) -> (r: Result<FunctionParameters, VErr>)
+    requires add_to_scope_dependencies ==> may_register(&input)
+{{
+{render(bg, 1)}
+}}
 }} // verus!
 fn main() {{}}
 """
-    return gen, [Obl("C16.params.self-required", ["C16", "C03", "C08"], fn="Parser::function_parameters",
+    return gen, [Obl("C02.params.registers-only-on-request", ["C02", "C03", "C07"], fn="Parser::function_parameters", desc="function_parameters registers a parameter in the current scope only when the caller asked for it: the class pre-walk (types only) leaves the class scope alone, so one method's parameters are not names of the others (D94)"),
+                 Obl("C16.params.self-required", ["C16", "C03", "C08"], fn="Parser::function_parameters",
                      desc="Parser::function_parameters: with require_self_param the list is accepted only if its first entry is `self` in a class method (so constructors / methods never have an empty parameter list); Parser::ident is only handed ident nodes (never panics on `self: T`)")], log
 
 
-UNITS = [VUnit("c16_params", ["C16", "C03", "C08"], "function parameters: `self` first where required", build)]
+UNITS = [VUnit("c16_params", ["C16", "C03", "C08", "C02", "C07"], "function parameters: `self` first where required", build)]
 UNITS[0].assumes = ["pest API and sub-parsers abstract; diagnostics dropped", "Constructor::compile's `parameters.len() - 1` relies on this check: that function itself is not under contract"]
